@@ -404,7 +404,8 @@ def harness_hits(ck, rows, out, err, rc, hname="h_c11", exe=None, args=()):
             try:
                 r = vlib.sh([exe, "--list"] + largs, timeout=60)
                 done = set(x["scenario"] for x in rows if "mode" in x)
-                scen = next((x for x in r.stdout.split() if x not in done), None)
+                only = args[list(args).index("--only") + 1] if "--only" in args else ""
+                scen = next((x for x in r.stdout.split() if only in x and x not in done), None)
             except Exception:
                 scen = None
         ck.hits.append(dict(what="harness %s ended abnormally in %s (rc=%d)%s %s" % (hname, scen, rc, (" " + asan.group(0)) if asan else "",
@@ -429,20 +430,42 @@ def explore_opts(args):
     return o
 
 
+DEADLINES = ("-5", "15", "55", "1000005")
+
+# n = 2 scenarios small enough for an unbounded (exhaustive) DFS in the thorough tier; the rest of n = 2 is explored
+# with a preemption bound (stated in the evidence)
+N2_FULL = ("wf/n2/d15/l0", "w/n2/d-5/l0", "wu/n2/d15/l1", "wf/n2/d-5/l2")
+
+
 def plan(ck):
-    """(label, harness arguments, exhaustive?) per batch."""
+    """Batches: (label, [argument lists, run in parallel], tag)."""
     seed = str(ck.seed)
+    parts = ["/d%s/l%d" % (d, l) for d in DEADLINES for l in range(3)]
     if ck.tier == "quick":
         return [
-            ("n=1 all forms, exhaustive DFS (ticker scenarios only with later-kind 0)", ["--mode", "dfs", "--only", "/n1/", "--param", "light=1"], "n1"),
-            ("n=2 DFS with preemption bound 2", ["--mode", "dfs", "--only", "/n2/", "--pb", "2", "--max", "100000"], "n2"),
-            ("n=3 seeded random walks", ["--mode", "random", "--only", "/n3/", "--max", "100", "--seed", seed], "n3"),
+            ("n=1 all forms, exhaustive DFS (ticker scenarios only for wf/wu with later-kind 0)",
+             [["--mode", "dfs", "--only", "/n1" + p, "--param", "light=1"] for p in parts], "n1"),
+            ("n=2 all forms, DFS with preemption bound 2",
+             [["--mode", "dfs", "--only", "/n2" + p, "--pb", "2", "--max", "100000"] for p in parts], "n2"),
+            ("n=3 all forms, seeded random walks",
+             [["--mode", "random", "--only", "/n3/", "--max", "100", "--seed", seed]], "n3"),
         ]
     return [
-        ("n=1 all forms, exhaustive DFS", ["--mode", "dfs", "--only", "/n1/", "--max", "3000000"], "n1"),
-        ("n=2 DFS with preemption bound 3", ["--mode", "dfs", "--only", "/n2/", "--pb", "3", "--max", "3000000"], "n2"),
-        ("n=3 seeded random walks", ["--mode", "random", "--only", "/n3/", "--max", "400", "--seed", seed], "n3"),
+        ("n=1 all forms, exhaustive DFS",
+         [["--mode", "dfs", "--only", "/n1" + p, "--max", "3000000"] for p in parts], "n1"),
+        ("n=2 all forms, DFS with preemption bound 3",
+         [["--mode", "dfs", "--only", "/n2" + p, "--pb", "3", "--max", "3000000"] for p in parts], "n2"),
+        ("n=2 selected scenarios (%s), unbounded exhaustive DFS" % ", ".join(N2_FULL),
+         [["--mode", "dfs", "--exact", x, "--max", "100000000"] for x in N2_FULL], "n2x"),
+        ("n=3 all forms, seeded random walks",
+         [["--mode", "random", "--only", "/n3" + p, "--max", "400", "--seed", seed] for p in parts], "n3"),
     ]
+
+
+def run_parallel(exe, arglists, timeout=1500, env=None, workers=None):
+    import concurrent.futures
+    with concurrent.futures.ThreadPoolExecutor(max_workers=workers or max(2, min(len(arglists), vlib.NPROC // 2))) as ex:
+        return list(ex.map(lambda a: (a,) + tuple(runner.run_harness(exe, a, timeout=timeout, env=env)), arglists))
 
 
 def main(ck):
@@ -466,14 +489,15 @@ def main(ck):
     exe, b = vlib.compile_harness("F", src, "c11")
     all_rows, heads = [], []
     batches = []
-    for label, args, tag in plan(ck):
+    for label, arglists, tag in plan(ck):
         t0 = time.time()
-        rows, out, err, rc = runner.run_harness(exe, args, timeout=1500)
-        for r in rows:
-            r["_opts"] = explore_opts(args)
-        harness_hits(ck, rows, out, err, rc, exe=exe, args=args)
-        hs = [r for r in rows if "mode" in r]
-        ts = [r for r in rows if "trace" in r]
+        hs, ts = [], []
+        for args, rows, out, err, rc in run_parallel(exe, arglists):
+            for r in rows:
+                r["_opts"] = explore_opts(args)
+            harness_hits(ck, rows, out, err, rc, exe=exe, args=args)
+            hs += [r for r in rows if "mode" in r]
+            ts += [r for r in rows if "trace" in r]
         heads += hs
         all_rows += ts
         batches.append(dict(batch=label, scenarios=len(hs), executions=sum(h["executions"] for h in hs),
@@ -489,10 +513,18 @@ def main(ck):
     if ck.tier == "thorough":
         t0 = time.time()
         exa, ba = vlib.compile_harness("FA", src, "c11")
-        fa_args = ["--mode", "random", "--max", "200", "--seed", str(ck.seed)]
-        rows, out, err, rc = runner.run_harness(exa, fa_args, timeout=1500,
-                                                env={"ASAN_OPTIONS": "detect_leaks=1:detect_stack_use_after_return=1:abort_on_error=0:exitcode=71"})
-        harness_hits(ck, rows, out, err, rc, "h_c11 (FA)", exe=exa, args=fa_args)
+        asan_env = {"ASAN_OPTIONS": "detect_leaks=1:detect_stack_use_after_return=1:abort_on_error=0:exitcode=71"}
+        fa_lists = [["--mode", "dfs", "--only", "/n1/d-5"],
+                    ["--mode", "dfs", "--only", "/n2/d-5", "--pb", "2", "--max", "60000"],
+                    ["--mode", "dfs", "--only", "/n2/d15", "--pb", "2", "--max", "60000"],
+                    ["--mode", "random", "--max", "300", "--seed", str(ck.seed)]]
+        rows, rc = [], 0
+        for args, rws, out, err, rc1 in run_parallel(exa, fa_lists, env=asan_env):
+            for r in rws:
+                r["_opts"] = explore_opts(args)
+            harness_hits(ck, rws, out, err, rc1, "h_c11 (FA)", exe=exa, args=args)
+            rows += rws
+            rc = rc or rc1
         hs = [r for r in rows if "mode" in r]
         ck.cov["asan"] = dict(config="FA detect_stack_use_after_return=1", scenarios=len(hs),
                               executions=sum(h["executions"] for h in hs), returncode=rc, seconds=round(time.time() - t0, 1))
